@@ -44,8 +44,10 @@ where
               *r = Some(x);
             }
           }
-          if let Some(x) = &*result_next.read().unwrap() {
-            sctl_next.sink_next(x.clone());
+          // emit with no lock held: the subscriber may feed the source from its callback
+          let x = result_next.read().unwrap().clone();
+          if let Some(x) = x {
+            sctl_next.sink_next(x);
           }
         },
         move |_, e| {
